@@ -146,6 +146,9 @@ fn run<T: Sc>(case: &TrajCase) -> Check {
     out.class(case.base.weight_class());
     out.class(format!("S={}", case.base.s()));
     out.class(case.base.flavour());
+    for r in case.base.regime() {
+        out.class(r);
+    }
     out.class(format!("updates={}", case.updates.len().min(4)));
     if case.lm.is_some() {
         out.class("history:optimizer");
@@ -172,6 +175,9 @@ impl Property for C02 {
     }
     fn strategy(&self, _tier: Tier) -> BoxedStrategy<TrajCase> {
         traj_strategy(CaseCfg::default(), 6, 8).boxed()
+    }
+    fn pool_of(&self, case: &Self::Case) -> Option<usize> {
+        case.base.pool_size()
     }
     fn check(&self, case: &TrajCase) -> Check {
         if case.base.f32 {
